@@ -764,7 +764,8 @@ func evaluate(a vh.Args, res *vh.Result, cases []*tcase) {
 		case "any-enc":
 			c.lE = add(fmt.Sprintf("E %d %s", len(lines), gshow(c.tree)))
 		case "sweep", "sweep-honest":
-			if c.swNote == "" {
+			if c.swNote == "" && (c.class == "sweep-honest" || len(c.stream) <= 32768) {
+				// (larger damaged payloads — OT extension matrices — are not classified by the model)
 				c.lT = add(tLine(len(lines), c.sw.typ, true, c.stream))
 			}
 		case "any-mut":
